@@ -157,9 +157,10 @@ def gen(rng, n_tus=None, n_platforms=None, outside=False, missing=0.0, toggles=T
                      ["chain", [["ifdef", "CASE_UP", [["code"]]], ["else", None, [["code"]]]]],
                      ["chain", [["ifdef", "CASE_LO", [["code"]]], ["else", None, [["code"]]]]]]
         if reguard and t == 0:
-            files[f"{d}/tab.h"] = [["code"], ["chain", [["ifndef", "TAB_G", [
-                ["define", "TAB_G", None], ["code"],
-                ["chain", [["ifdef", "TAB_MODE", [["code"], ["define", "TAB_SECOND", None]]], ["else", None, [["code"]]]]]]]]], ["code"]]
+            # nothing but the include guard at top level, like a real header
+            files[f"{d}/tab.h"] = [["bare"], ["chain", [["ifndef", "TAB_G", [
+                ["bare"], ["define", "TAB_G", None], ["code"],
+                ["chain", [["ifdef", "TAB_MODE", [["code"], ["define", "TAB_SECOND", None]]], ["else", None, [["code"]]]]]]]]]]
             body += [["include", "q", "tab.h"], ["code"], ["undef", "TAB_G"], ["define", "TAB_MODE", "1"], ["include", "q", "tab.h"],
                      ["include", "q", "tab.h"],
                      ["chain", [["ifdef", "TAB_SECOND", [["code"]]], ["else", None, [["code"]]]]]]
